@@ -30,7 +30,7 @@ RULE = ("Programs decoded from a Hypothesis-drawn genome: DEFINT/SNG/DBL/STR on 
         "globals X Y N with every sigil (strings on the heap), an array named like a parameter, 1-3 "
         "functions with 0-4 distinct parameters (explicit and DEFtype-resolved types), bodies over "
         "parameters, same-named globals, constants, + - * /, LEN, string +, FRE(\"\"), SQR, calls to "
-        "the other functions (nesting <= 3), self and mutual recursion; arguments that convert (3.7 "
+        "the other functions (nesting <= 3), self and mutual recursion; arguments that convert (3.75 "
         "-> integer), overflow (40000 -> %), mismatch (string <-> number), divide by zero; called "
         "from direct mode, from a program line, and under ON ERROR GOTO.  Non-trivial: a global "
         "shares its name with a parameter of a function that is evaluated, and the call raised or "
@@ -132,7 +132,8 @@ class Ref(object):
         self.soft_is_hard = soft_is_hard
         self.unspec = None                 # first reason why the value is not asserted
         self.soft = None                   # first soft error (message printed, evaluation goes on)
-        self.deftypes = case['deftypes']
+        self.deftypes = dict(case['deftypes'])
+        self.deftypes.update(case.get('late') or {})     # in force when the call is made
         self.fns = {}
         for f in case['fns']:
             self.fns[resolve(f['name'], self.deftypes)] = f
@@ -259,8 +260,14 @@ class Ref(object):
             if a[0] == 'v' and self.r(a[1]) in params[:k_] and self.r(a[1])[-1] == params[k_][-1]:
                 self.known_result_taint = True
         body = f['body']
-        if body[0] == 'v' and self.r(body[1]) in params and self.r(body[1])[-1] == fname[-1]:
-            self.known_result_taint = True
+        if body[0] == 'v' and self.r(body[1])[-1] == fname[-1]:
+            # the body's value is the variable itself; it is a parameter of this function or of
+            # one that is being evaluated further out, and will be restored before it is used
+            bound = set(params)
+            for g in active:
+                bound.update(self.r(p) for p in g['params'])
+            if self.r(body[1]) in bound:
+                self.known_result_taint = True
         for p in params:
             if p in self.globals:
                 self.shadowing = True
@@ -303,6 +310,10 @@ def program_lines(case, route):
         lines.append('%d DEF FN%s%s=%s' % (n, f['name'], plist, render(f['body'])))
         n += 10
     rsig = resolve(case['call'][1], case['deftypes'])[-1]
+    late = ['%s %s' % (DEFWORD[t], letter) for letter, t in sorted((case.get('late') or {}).items())]
+    if late:
+        # parameters without a sigil take their type when the function is evaluated
+        lines.append('480 ' + ':'.join(late))
     lines.append('490 STOP')
     lines.append('500 RZ%s=%s' % (rsig, render(case['call'])))
     lines.append('510 END')
@@ -339,7 +350,9 @@ def as_exact(x):
 def check_case(case):
     res = Result()
     route = case['route']
-    strict = bool(case.get('strict'))
+    # the four DEF FN findings were fixed in bdb77144: their regions are asserted like any other
+    # (own bucket keys kept); 'strict': False would skip them again
+    strict = bool(case.get('strict', True))
     ref = Ref(case, soft_is_hard=(route == 'trap'))
     genv = {}
     for name, v in case['globals']:
@@ -347,9 +360,13 @@ def check_case(case):
     try:
         want = ('val', ref.eval(case['call'], genv, []))
     except Err as x:
-        want = ('err', x.codes)
-    if ref.soft is not None and ref.unspec == 'soft-error':
-        want = ('soft', ref.soft)
+        # a soft error noted in another argument of the failing call may be printed first
+        want = ('err', x.codes | ({ref.soft} if ref.soft is not None else set()))
+    if case.get('late'):
+        want = ('unspec', 'late-deftype')
+    elif ref.unspec == 'soft-error' and ref.soft is not None:
+        if want[0] == 'val':
+            want = ('soft', ref.soft)
     elif ref.unspec is not None:
         want = ('unspec', ref.unspec)
     lines, rsig = program_lines(case, route)
@@ -392,7 +409,20 @@ def check_case(case):
             res.inconclusive = True
             return res
         if o.kind == 'escaped':
-            res.fail('escaped.%s@%s' % (o.exc, o.frame), '%s\n%s' % (where, o.tb))
+            exc = '%s@%s' % (o.exc, o.frame)
+            known = None
+            if exc == 'KeyError@strings.py:_retrieve':
+                # consequences of two findings inside the same call: a collection after a string
+                # parameter's global was dropped, or after a failed inner call leaked its argument
+                if ref.gc_vars:
+                    known = 'caller-var.string-parameter-lost-in-gc'
+                elif ref.leak and ref.gc_ran:
+                    known = 'gc-after-failed-call.leaked-string-argument'
+            if known and not strict:
+                res.excluded += 1
+                res.label('region.' + known)
+            else:
+                res.fail(known or 'escaped.' + exc, '%s\n%s' % (where, o.tb))
             return res
         if route == 'eval':
             got_err = [c for c, _ in o.errors]
@@ -460,14 +490,6 @@ def check_case(case):
                         key = 'gc-after-failed-call.leaked-string-argument'
                     elif ref.gc_vars:
                         key = 'caller-var.string-parameter-lost-in-gc'
-                    elif got_err and exc == 'KeyError@strings.py:_retrieve':
-                        # finding: an expression that raises leaves its operand stacks in
-                        # memory._stack; a later collection dereferences the stale strings
-                        key = 'gc-after-failed-call.stale-operand-stack'
-                        if not strict:
-                            res.excluded += 1
-                            res.label('region.stale-operand-stack')
-                            return res
                     else:
                         key = 'escaped.' + exc
                     res.fail(key, 'FRE("") after %s\n%s' % (where, g.tb))
@@ -496,10 +518,10 @@ def check_case(case):
 # ---------------------------------------------------------------------------------------------
 # generator
 
-NUMCONST = ['1', '2', '3', '0', '4', '3.7', '-3.2', '2.25', '10', '40000', '0.5', '-1', '7', '100',
-            '-40000', '1.75']
+NUMCONST = ['1', '2', '3', '0', '4', '3.75', '-3.25', '2.25', '10', '40000', '0.75', '-1', '7',
+            '100', '5', '1.625']
 STRCONST = ['a', 'bc', '', 'xyz', 'q']
-GLOBNUM = {'%': [5, -7, 32767, 12], '!': [9, 2.5, -0.25, 1000], '#': [6, 0.125, -3.5, 70000]}
+GLOBNUM = {'%': [5, -7, 32767, 12], '!': [9, 2.5, -0.25, 1000], '#': [6, 0.125, -3.5, 300.5]}
 GLOBSTR = ['glob', 'hi', 'w', 'heap!']
 
 
@@ -524,7 +546,15 @@ class Builder(object):
         self.deftypes = {}
         for letter in BASES + FNBASES:
             self.deftypes[letter] = [None, None, None, '%', '#', '$', '!', None][g.take(8)]
-        self.nfn = 1 + g.take(3)
+        self.early = dict(self.deftypes)
+        self.late = {}
+        if g.take(6) == 0:
+            letter = g.pick(BASES)
+            t = g.pick(['%', '#', '$', '!', '%'])
+            if t != (self.deftypes[letter] or '!'):
+                self.late[letter] = t
+                self.deftypes[letter] = t          # everything below is typed as at call time
+        self.nfn = g.pick([3, 3, 2, 3, 1, 2, 3, 3])
         self.fnspell = []
         for i in range(self.nfn):
             self.fnspell.append(FNBASES[i] + g.pick(SIGILS))
@@ -579,8 +609,8 @@ class Builder(object):
                 if k % 2 == 0:
                     return ['c', g.pick(NUMCONST)]
                 return ['v', g.pick(self.spellings('n', params))]
-            if k < 9:
-                return [g.pick(['+', '*', '-', '+', '/', '*']),
+            if k < 7:
+                return [g.pick(['+', '*', '-', '+', '/', '-']),
                         self.expr('n', depth - 1, frm, params), self.expr('n', depth - 1, frm, params)]
             if k < 13:
                 fs = self.fns_of('n', frm)
@@ -590,7 +620,9 @@ class Builder(object):
             if k == 13:
                 return ['len', self.expr('s', depth - 1, frm, params)]
             if k == 14:
-                return ['fre'] if g.take(2) else ['sqr', self.expr('n', depth - 1, frm, params)]
+                if g.take(3):
+                    return ['fre']
+                return ['sqr', self.expr('n', depth - 1, frm, params)]
             return ['v', g.pick(self.spellings('n', params))]
         if depth <= 0 or k < 6:
             if k % 2 == 0:
@@ -631,8 +663,8 @@ class Builder(object):
             array = [b, 'arr' if b[-1] == '$' else 7]
         j = g.pick([0, 0, 0, 1, 2]) % self.nfn
         call = self.call(j, 2, -1, ())
-        return {'deftypes': self.deftypes, 'globals': globs, 'array': array, 'fns': fns,
-                'call': call, 'route': route}
+        return {'deftypes': self.early, 'late': self.late, 'globals': globs, 'array': array,
+                'fns': fns, 'call': call, 'route': route}
 
 
 def strat():
@@ -644,44 +676,55 @@ def strat():
 
 def units(tier):
     return [
-        Unit('programs', 'hyp', shards=16, examples={'quick': 500, 'thorough': 20000},
+        Unit('programs', 'hyp', shards=16, examples={'quick': 600, 'thorough': 20000},
              strategy=strat),
     ]
 
 
-def _case(globs, fns, call, route='eval', deftypes=None, strict=True, array=None):
+def _case(globs, fns, call, route='eval', deftypes=None, strict=True, array=None, late=None):
     dt = {letter: None for letter in BASES + FNBASES}
     dt.update(deftypes or {})
-    return {'deftypes': dt, 'globals': globs, 'array': array, 'fns': fns, 'call': call,
-            'route': route, 'strict': strict}
+    return {'deftypes': dt, 'late': late or {}, 'globals': globs, 'array': array, 'fns': fns,
+            'call': call, 'route': route, 'strict': strict}
 
 
 REGRESSIONS = [
     # sound behaviour: conversion of the argument, shadowed global restored, nested calls
     _case([['X%', 5]], [{'name': 'A', 'params': ['X%'], 'body': ['*', ['v', 'X%'], ['c', '1']]}],
-          ['call', 'A', [['c', '3.7']]]),
+          ['call', 'A', [['c', '3.75']]]),
     _case([['X!', 9]], [{'name': 'A%', 'params': ['X'], 'body': ['*', ['v', 'X'], ['c', '2']]},
                         {'name': 'B', 'params': ['X'],
                          'body': ['+', ['call', 'A%', [['+', ['v', 'X'], ['c', '1']]]], ['v', 'X']]}],
           ['call', 'B', [['c', '3']]], route='prog'),
+    # a DEFtype after the definition: the parameter is created by the call and removed again
+    _case([['X!', 2]], [{'name': 'A', 'params': ['X'], 'body': ['+', ['v', 'X'], ['c', '1']]}],
+          ['call', 'A', [['c', '7']]], late={'X': '%'}),
     # recursion: direct and mutual
     _case([['X!', 2]], [{'name': 'A', 'params': ['X'], 'body': ['call', 'A', [['v', 'X']]]}],
           ['call', 'A', [['c', '1']]], route='trap'),
     _case([['Y!', 2]], [{'name': 'A', 'params': ['X'], 'body': ['call', 'B', [['v', 'X']]]},
                         {'name': 'B', 'params': ['Y'], 'body': ['call', 'A', [['v', 'Y']]]}],
           ['call', 'A', [['c', '1']]]),
-    # open: DEF FNA(X)=X returns the global X, not the argument
+    # fixed 8b0d6f2c: an expression that raised left its operand stack behind; the next collection
+    # dereferenced the stale string
+    _case([], [{'name': 'A$', 'params': ['X'],
+                'body': ['cat', ['cat', ['s', 'ab'], ['s', 'c']], ['+', ['v', 'X'], ['s', 'x']]]}],
+          ['call', 'A$', [['c', '1']]]),
+    # fixed 43ccddd6: a collection inside the argument list while no permanent string exists
+    _case([], [{'name': 'A$', 'params': ['X'], 'body': ['cat', ['s', 'bc'], ['s', 'xyz']]}],
+          ['call', 'A$', [['fre']]], route='prog'),
+    # fixed bdb77144: DEF FNA(X)=X returned the global X, not the argument
     _case([['X!', 9]], [{'name': 'A', 'params': ['X'], 'body': ['v', 'X']}],
           ['call', 'A', [['c', '3']]]),
-    # open: X=5:Y=3:FNB(Y,X) with DEF FNB(X,Y)=X-Y gives 0
+    # fixed bdb77144: X=5:Y=3:FNB(Y,X) with DEF FNB(X,Y)=X-Y gave 0
     _case([['X!', 5], ['Y!', 3]],
           [{'name': 'B', 'params': ['X', 'Y'], 'body': ['-', ['v', 'X'], ['v', 'Y']]}],
           ['call', 'B', [['v', 'Y'], ['v', 'X']]], route='prog'),
-    # open: a global string named like a parameter is lost when the body collects garbage
+    # fixed bdb77144: a global string named like a parameter was lost when the body collected garbage
     _case([['X$', 'hello'], ['Y$', 'world']], [{'name': 'A', 'params': ['X$'], 'body': ['fre']}],
           ['call', 'A', [['cat', ['s', 'ab'], ['s', 'c']]]]),
-    # open: after a re-entered function / a failing later argument the string argument stays
-    # registered as a temporary and the next garbage collection fails
+    # fixed bdb77144: after a re-entered function / a failing later argument the string argument
+    # stayed registered as a temporary and the next garbage collection failed
     _case([], [{'name': 'A$', 'params': ['X$'],
                 'body': ['call', 'A$', [['cat', ['v', 'X$'], ['s', 'a']]]]}],
           ['call', 'A$', [['cat', ['s', 'q'], ['s', 'r']]]], route='trap'),
@@ -689,4 +732,17 @@ REGRESSIONS = [
           ['call', 'A$', [['cat', ['s', 'q'], ['s', 'r']], ['s', 's']]]),
 ]
 
-KILLS = []
+KILLS = [
+    "userfunctions.py restore of the saved variables only when the body returned (not in finally) -> "
+    "caller-var.changed-after-error",
+    "userfunctions.py variables created by the call are not saved/restored ('restore only parameters "
+    "that existed before'; reachable through a DEFtype after the DEF FN) -> caller-var.changed",
+    "userfunctions.py _is_parsing cleared before the body is parsed / re-entry check skipped -> "
+    "escaped.RecursionError@*, recursion.wrong-error",
+    "userfunctions.py arguments bound without conversion -> caller-var.changed-after-error, result.value",
+    "userfunctions.py result not converted to the function type -> call.error-missing, result.value",
+    "userfunctions.py last saved variable not restored -> caller-var.changed, caller-var.changed-after-error",
+    "fix bdb77144 reverted (userfunctions.py as in the snapshot) -> result.parameter-read-after-"
+    "rebinding, caller-var.string-parameter-lost-in-gc, gc-after-failed-call.leaked-string-argument, "
+    "caller-var.unreadable.KeyError (regressions and random unit)",
+]
